@@ -20,6 +20,10 @@ type SeedOpts struct {
 	// (excluded by C01's precondition, wanted by C02).
 	ForeignOnDesiredName bool
 	Max                  int
+	// Undeclared also seeds objects of kinds the controller does not declare.
+	Undeclared bool
+	// Deleting also seeds objects that are pending deletion.
+	Deleting bool
 }
 
 // OwnerRefTo builds a controller owner reference to obj.
@@ -77,6 +81,18 @@ func SeedStore(c *vs.Case, e *Env, o SeedOpts) []Seed {
 	pns := e.Scn.ParentNS()
 	for i := 0; i < n; i++ {
 		ch := e.Scn.Cfg.Children[c.Int(len(e.Scn.Cfg.Children))]
+		undeclared := false
+		if o.Undeclared && c.Prob(1, 5) {
+			pool := []string{"configmaps", "widgets", "gadgets"}
+			if pns == "" {
+				pool = childPool
+			}
+			r := pool[c.Int(len(pool))]
+			if e.Scn.Cfg.ChildCfgOf(r) == nil {
+				ch = ChildCfg{Resource: r}
+				undeclared = true
+			}
+		}
 		d := e.W.Sim.Def(ch.Resource)
 		ns := ""
 		if d.Namespaced {
@@ -88,7 +104,7 @@ func SeedStore(c *vs.Case, e *Env, o SeedOpts) []Seed {
 		// name: a desired one (if permitted / sensible) or a fresh one
 		name := fmt.Sprintf("seed%d", i)
 		var like map[string]any
-		if len(desired) > 0 && c.Prob(1, 2) {
+		if len(desired) > 0 && !undeclared && c.Prob(1, 2) {
 			cand := e.NormalizeDesired(desired[c.Int(len(desired))])
 			if cand["kind"] == d.Kind {
 				like = cand
@@ -115,6 +131,10 @@ func SeedStore(c *vs.Case, e *Env, o SeedOpts) []Seed {
 			roles = []string{"dec-unmarked", "dec-other-marker", "stale-owned", "foreign-owned", "nonmatching-orphan", "other-namespace"}
 		}
 		role = roles[c.Int(len(roles))]
+		if undeclared {
+			role = "stale-owned"
+		}
+		deleting := o.Deleting && c.Prob(1, 5)
 		labels := map[string]any{}
 		switch role {
 		case "matching-orphan":
@@ -179,9 +199,20 @@ func SeedStore(c *vs.Case, e *Env, o SeedOpts) []Seed {
 		if role == "stale-owned" || role == "extra-owner" || role == "owned-nonmatching" {
 			obj = withLastAppliedOf(obj)
 		}
+		if deleting {
+			meta["finalizers"] = []any{"example.com/hold"}
+		}
 		created, err := e.W.Sim.ExtCreate(ch.Resource, obj)
 		if err != nil {
 			continue // name collision with an earlier seed
+		}
+		if deleting {
+			e.W.Sim.ExtDelete(ch.Resource, metaStr(created, "namespace"), metaStr(created, "name"), "")
+			created = e.W.Sim.Get(ch.Resource, metaStr(created, "namespace"), metaStr(created, "name"))
+			role += "+deleting"
+		}
+		if undeclared {
+			role = "undeclared-kind-owned"
 		}
 		r := role
 		if onDesired {
